@@ -5,6 +5,7 @@ package main
 
 import (
 	"bufio"
+	"regexp"
 	"bytes"
 	"fmt"
 	"io"
@@ -352,9 +353,13 @@ func (s *SolverStats) bump(backend string) {
 type frame struct {
 	lines    []string
 	declared map[string]bool
+	id       int
 }
 
 type Solver struct {
+	muted   int
+	nframe  int
+	defs    map[string]defEntry // definition cache: normalised term -> name (valid while its frame is on the stack)
 	decls   []string        // declarations are global: they survive pop (global-declarations)
 	gdecl   map[string]bool
 	cmd     *exec.Cmd
@@ -372,7 +377,7 @@ const smtPrelude = `(set-option :produce-models true)
 `
 
 func NewSolver(timeoutMs int) *Solver {
-	s := &Solver{timeout: timeoutMs, gdecl: map[string]bool{}}
+	s := &Solver{timeout: timeoutMs, gdecl: map[string]bool{}, defs: map[string]defEntry{}}
 	s.frames = []*frame{{declared: map[string]bool{}}}
 	s.start()
 	return s
@@ -383,7 +388,11 @@ func (s *Solver) start() {
 	if t1 > 4000 {
 		t1 = 4000
 	}
-	s.cmd = exec.Command("z3-new", "-in", fmt.Sprintf("-t:%d", t1))
+	args := []string{"-in", fmt.Sprintf("-t:%d", t1)}
+	if o := os.Getenv("TURNVC_Z3OPTS"); o != "" {
+		args = append(args, strings.Fields(o)...)
+	}
+	s.cmd = exec.Command("z3-new", args...)
 	s.in, _ = s.cmd.StdinPipe()
 	o, _ := s.cmd.StdoutPipe()
 	s.cmd.Stderr = nil
@@ -429,7 +438,8 @@ func (s *Solver) send(l string) {
 }
 
 func (s *Solver) Push() {
-	s.frames = append(s.frames, &frame{declared: map[string]bool{}})
+	s.nframe++
+	s.frames = append(s.frames, &frame{declared: map[string]bool{}, id: s.nframe})
 	if !s.dead {
 		io.WriteString(s.in, "(push 1)\n")
 	}
@@ -462,7 +472,7 @@ func (s *Solver) DeclareConst(name, sort string) {
 }
 
 func (s *Solver) Assert(t string) {
-	if t == "true" {
+	if t == "true" || s.muted > 0 {
 		return
 	}
 	s.send("(assert " + t + ")")
@@ -757,4 +767,55 @@ func firstLines(s string, n int) string {
 		ls = ls[:n]
 	}
 	return strings.Join(ls, " / ")
+}
+
+type defEntry struct {
+	name  string
+	frame int
+}
+
+func (s *Solver) frameActive(id int) bool {
+	for _, f := range s.frames {
+		if f.id == id {
+			return true
+		}
+	}
+	return false
+}
+
+var qnameRe = regexp.MustCompile(`q_[A-Za-z0-9]+_\d+`)
+
+func normaliseBound(t string) string {
+	seen := map[string]string{}
+	return qnameRe.ReplaceAllStringFunc(t, func(m string) string {
+		if r, ok := seen[m]; ok {
+			return r
+		}
+		r := fmt.Sprintf("q@%d", len(seen))
+		seen[m] = r
+		return r
+	})
+}
+
+// Define returns a constant equal to term, reusing an earlier definition of the same (alpha-normalised) term
+// when that definition is still on the assertion stack.
+func (s *Solver) Define(hint, term, sort string, fresh func(hint, sort string) string) string {
+	key := sort + "|" + normaliseBound(term)
+	if e, ok := s.defs[key]; ok && s.frameActive(e.frame) {
+		return e.name
+	}
+	n := fresh(hint, sort)
+	s.Assert("(= " + n + " " + term + ")")
+	s.defs[key] = defEntry{n, s.frames[len(s.frames)-1].id}
+	return n
+}
+
+// AssertOnce asserts a formula unless the same (alpha-normalised) formula is already on the stack.
+func (s *Solver) AssertOnce(t string) {
+	key := "assert|" + normaliseBound(t)
+	if e, ok := s.defs[key]; ok && s.frameActive(e.frame) {
+		return
+	}
+	s.Assert(t)
+	s.defs[key] = defEntry{"", s.frames[len(s.frames)-1].id}
 }
